@@ -17,6 +17,8 @@ BOXES = [(0.0, 1.0), (0.0, 1.0), (-1.0, 1.0), (0.5, 2.0), (-3.0, 6.0), (2.0, 2.2
 # ----------------------------------------------------------------------------------------------- generator
 def gen_case(rng, tier, what):
     dim = rng.choice([2, 2, 2, 3, 3, 4] if tier == 'quick' else [2, 2, 3, 3, 4, 4])
+    if rng.random() < 0.06:
+        dim = 1
     lmin = rng.choice([1, 1, 1, 2])
     lmax = lmin + rng.choice([1, 1, 2])
     if dim == 4 or lmax > 3:
@@ -44,10 +46,20 @@ def gen_case(rng, tier, what):
     if dim == 2 and lmax >= 4:
         steps = min(steps, 5 if what < 2 else 4)
     ab = [rng.choice(BOXES) for _ in range(dim)]
-    return dict(what=what, dim=dim, lmin=lmin, lmax=lmax, version=rng.choice(VERSIONS),
-                rebalancing=rng.random() < 0.5, boundary=rng.random() < 0.6,
-                margin=rng.choice(MARGINS), safety=rng.choice(SAFETY),
-                a=[x[0] for x in ab], b=[x[1] for x in ab], steps=steps, seed=rng.randrange(1 << 30))
+    c = dict(what=what, dim=dim, lmin=lmin, lmax=lmax, version=rng.choice(VERSIONS),
+             rebalancing=rng.random() < 0.5, boundary=rng.random() < 0.6,
+             margin=rng.choice(MARGINS), safety=rng.choice(SAFETY),
+             a=[x[0] for x in ab], b=[x[1] for x in ab], steps=steps, seed=rng.randrange(1 << 30))
+    return far_boxes(rng, c)
+
+
+def far_boxes(rng, c, p=0.15):
+    """(d) with probability p the domain is far from the origin / tiny / huge in (some of) its dimensions; all mid points stay
+    exactly representable.  The test function of such a case is prod_k (x_k - a_k), compared relative to the box volume."""
+    if rng.random() < p:
+        ab = [rng.choice(FAR_BOXES) if rng.random() < 0.7 else rng.choice(BOXES) for _ in range(c['dim'])]
+        c.update(a=[x[0] for x in ab], b=[x[1] for x in ab], fscale=True)
+    return c
 
 
 def margin_of(case):
@@ -122,7 +134,8 @@ def gen_case_deep(rng, tier, what, lift_bias=0.0):
     if what >= 2:
         lmax = min(lmax, 4)
         lmin = min(lmin, lmax - 1)
-    ab = [rng.choice(BOXES) for _ in range(2)]
+    dim = 1 if rng.random() < 0.06 else 2
+    ab = [rng.choice(BOXES) for _ in range(dim)]
     steps = rng.randrange(8, 17) if what < 2 else rng.randrange(5, 9)
     version = rng.choice([6, 6, 7, 8, 2, 3])
     rebal = rng.random() < 0.9
@@ -131,11 +144,12 @@ def gen_case_deep(rng, tier, what, lift_bias=0.0):
         # <= lmin on a non-top component level): lmax = lmin + 1 >= 4, rebalancing on, the versions that use the level vector
         lmin, lmax, version, rebal = 3, 4, rng.choice([6, 7, 8]), True
         steps = rng.randrange(5, 12)
-    return dict(what=what, dim=2, lmin=lmin, lmax=lmax, version=version,
-                rebalancing=rebal, boundary=rng.random() < 0.7,
-                margin=rng.choice([None, None, None, 0.5, 1.0, 0.75]), safety=rng.choice(SAFETY_DEEP),
-                a=[x[0] for x in ab], b=[x[1] for x in ab], steps=steps, seed=rng.randrange(1 << 30),
-                drive='direct', family='deep')
+    c = dict(what=what, dim=dim, lmin=lmin, lmax=lmax, version=version,
+             rebalancing=rebal, boundary=rng.random() < 0.7,
+             margin=rng.choice([None, None, None, 0.5, 1.0, 0.75]), safety=rng.choice(SAFETY_DEEP),
+             a=[x[0] for x in ab], b=[x[1] for x in ab], steps=steps, seed=rng.randrange(1 << 30),
+             drive='direct', family='deep')
+    return far_boxes(rng, c)
 
 
 def _geometry(rng, n_splits, mode, base=0, maxdepth=10):
@@ -220,13 +234,16 @@ def gen_case_install(rng, tier, what):
     rebalancing pass) makes coarsening levels, lmax and the scheme consistent, then refine() steps follow."""
     c = gen_case_deep(rng, tier, what)
     trees, shapes = [], []
-    for d in range(2):
+    big = rng.random() < 0.02 and what < 2
+    for d in range(c['dim']):
         # the geometry refines the initial grid of level lmax (as in every reachable state); one case in eight starts from an
         # arbitrary valid tree instead (possibly shallower than the initial grid)
         base = c['lmax'] if rng.random() < 0.875 else 0
         # (at least 3 intervals: with a single inner point the version-8 loop of the library does not terminate - the
         # degenerate case lmax = 1 that initialize_refinement rejects)
         nsp = rng.choice([0, 3, 6, 10, 16, 24] if what < 2 else [0, 3, 6, 10, 14])
+        if big and d == 0:          # (h) a few trees far above every size seen otherwise
+            nsp = rng.randrange(200, 280)
         t, shape = gen_tree(rng, c['a'][d], c['b'][d], nsp if base > 0 else max(nsp, 3), base=base)
         trees.append([[[o[0].numerator, o[0].denominator], [o[1].numerator, o[1].denominator], o[2], o[3]] for o in t])
         shapes.append(shape)
@@ -234,6 +251,45 @@ def gen_case_install(rng, tier, what):
              install=dict(rebalance=rng.random() < 0.5, trees=trees, shapes=shapes))
     if rng.random() < 0.15:
         c['drive'] = 'full'
+    return c
+
+
+def add_sweep_axes(rng, c, what):
+    """Lessons sweep: the generic axes (a)-(i) of harness/AGENT_NOTE_HISTORIES.txt drawn independently on top of a case of any
+    family.  (a) argument immutability + (c) returned-object aliasing + (e) public observer calls between steps: observe/scribble;
+    (b) kind of object carrying the bounds, level vectors and points; (d) boxes far from the origin / tiny boxes, benefit
+    magnitudes; (f) further performSpatiallyAdaptiv calls with other limits on the same object; (g) a second strategy object alive
+    and stepping in the same process; (h) a few trees with > 200 intervals (gen_case_install); (i) d = 1 (in the families)."""
+    dim = c['dim']
+    fam = c.get('family') or 'mixed'
+    if rng.random() < 0.25:
+        kinds = ['list', 'tuple', 'view']
+        if all(float(x) == int(x) for x in c['a'] + c['b']):
+            kinds.append('int')
+        if all((x, y) in ((0.0, 1.0), (-1.0, 1.0)) for x, y in zip(c['a'], c['b'])):
+            kinds.append('f32')
+        c['ab'] = rng.choice(kinds)
+    heavy = dim >= 4 and what >= 2
+    if rng.random() < 0.3 and not heavy:
+        c['observe'] = True
+        c['scribble'] = rng.random() < 0.5
+    if c.get('install') is None and rng.random() < 0.2 and not heavy:
+        levels = [(1, 2), (1, 3), (2, 3)] + ([(2, 4), (3, 4)] if dim <= 2 else [])
+        if dim >= 4:
+            levels = [(1, 2)]
+        legs = []
+        for _ in range(rng.choice([1, 1, 2])):
+            lmin2, lmax2 = rng.choice(levels)
+            legs.append(dict(mode=rng.choice(['fresh', 'fresh', 'container']), lmin=lmin2, lmax=lmax2, steps=rng.randrange(1, 4)))
+        c['legs'] = legs
+        if what >= 2 or dim >= 3:
+            c['steps'] = min(c['steps'], 3)
+    if rng.random() < 0.1:
+        comp = gen_case_deep(rng, 'quick', 1 if what >= 1 else 0)
+        comp['steps'] = rng.randrange(2, 6)
+        c['companion'] = comp
+    if fam in ('deep', 'install') and rng.random() < 0.3:
+        c['bscale'] = True
     return c
 
 
@@ -374,6 +430,13 @@ def _snapshot(sa, what):
     return st
 
 
+def _reraise_timeout(e):
+    """the per-case alarm of run_impl must reach run_impl (status 'timeout', retried under load), not be recorded as an
+    exception of the implementation"""
+    if type(e).__name__ == 'CaseTimeout':
+        raise e
+
+
 def _where(e):
     import os
     import traceback
@@ -384,166 +447,415 @@ def _where(e):
     return ''
 
 
-def impl_run(case):
-    """One scripted history on the implementation. The benefits are drawn from the case seed against the live
-    state (sizes, levels, coarsening), read back from the objects' `benefit` attribute and returned so that the model
-    replays them.
-      case['drive'] = 'full' (default): scripted ErrorCalculator, every step = refine() + continue_adaptive_refinement
-                      'direct': the benefit attributes are set on the objects, benefit_max as evaluate_operation does, refine()
-      case['install'] = dict(rebalance, trees): the run starts from an installed state (see gen_case_install)
-    An exception inside a step is returned with the history up to that step (out['exc'])."""
+SENTINEL = -77777.25
+SIZE_STOP = 900           # per dimension: a history is stopped when a tree grows beyond every size the generators aim at
+OBSERVERS = ['stripes', 'points', 'call', 'num_points', 'check_scheme', 'final_combi', 'points_weights', 'num_each_dim']
+FAR_BOXES = [(1024.0, 1024.0 + 2.0 ** -10), (-2.0 ** 20, -2.0 ** 20 + 1.0), (0.0, 2.0 ** -40), (2.0 ** -60, 3 * 2.0 ** -60),
+             (-2.0 ** 30, 2.0 ** 30)]
+
+
+def make_ab(case):
+    """the objects handed to the library as domain bounds: kind of object per case (axis b: object reuse / layouts / dtypes)"""
     import numpy as np
-    from sparseSpACE.spatiallyAdaptiveSingleDimension2 import SpatiallyAdaptiveSingleDimensions2
-    from sparseSpACE.ErrorCalculator import ErrorCalculator
-    from sparseSpACE.Grid import GlobalTrapezoidalGrid
-    from sparseSpACE.GridOperation import Integration
-    from sparseSpACE.Function import Function
-    from sparseSpACE.RefinementObject import RefinementObjectSingleDimension
+    kind = case.get('ab', 'f64')
+    av, bv = [float(x) for x in case['a']], [float(x) for x in case['b']]
+    if kind == 'list':
+        return list(av), list(bv)
+    if kind == 'tuple':
+        return tuple(av), tuple(bv)
+    if kind == 'int':
+        return np.array([int(x) for x in av]), np.array([int(x) for x in bv])
+    if kind == 'f32':
+        return np.array(av, dtype=np.float32), np.array(bv, dtype=np.float32)
+    if kind == 'view':          # non-contiguous views of larger parents (a strided slice, a column of a Fortran-ordered matrix)
+        pa = np.full(2 * len(av) + 1, 9.0)
+        pa[1::2] = av
+        pb = np.asfortranarray(np.array([[x, 5.0, 7.0] for x in bv]))
+        return pa[1::2], pb[:, 0]
+    return np.array(av, dtype=float), np.array(bv, dtype=float)
 
-    what = case.get('what', 0)
-    rng = random.Random(case['seed'])
-    dim = case['dim']
-    a = np.array(case['a'], dtype=float)
-    b = np.array(case['b'], dtype=float)
-    margin = margin_of(case)
-    fixed = case.get('bens')
-    direct = case.get('drive', 'full') == 'direct'
-    inst = case.get('install')
-    deep = case.get('family') in ('deep', 'install')
-    qa = [sx.rat(x) for x in case['a']]
-    qb = [sx.rat(x) for x in case['b']]
 
-    # f(x) = sum_k alpha_k x_k^2 + prod_k (beta_k + x_k): smooth, non-multilinear, dyadic coefficients
-    frng = random.Random(case['seed'] ^ 0x5f5f)
-    alpha = [Fraction(frng.choice([0, 1, 2, -1, 3]), 2) for _ in range(dim)]
-    beta = [Fraction(frng.choice([2, 3, 4, 7]), 2) for _ in range(dim)]
+class _Run:
+    """One scripted history on ONE implementation object (see impl_run)."""
 
-    class TestFunction(Function):
-        def eval(self, coordinates):
-            s_, p_ = 0.0, 1.0
-            for k, xk in enumerate(coordinates):
-                s_ += float(alpha[k]) * xk * xk
-                p_ *= (float(beta[k]) + xk)
-            return s_ + p_
+    def __init__(self, case):
+        import numpy as np
+        from sparseSpACE.spatiallyAdaptiveSingleDimension2 import SpatiallyAdaptiveSingleDimensions2
+        from sparseSpACE.ErrorCalculator import ErrorCalculator
+        from sparseSpACE.Grid import GlobalTrapezoidalGrid
+        from sparseSpACE.GridOperation import Integration
+        from sparseSpACE.Function import Function
+        self.np = np
+        self.case = case
+        self.what = case.get('what', 0)
+        self.rng = random.Random(case['seed'])
+        self.orng = random.Random(case['seed'] ^ 0xabcdef)          # observer choices: independent of the benefit stream
+        self.dim = dim = case['dim']
+        self.margin = margin_of(case)
+        self.fixed = case.get('bens')
+        self.direct = case.get('drive', 'full') == 'direct'
+        self.inst = case.get('install')
+        self.deep = case.get('family') in ('deep', 'install')
+        self.qa = [sx.rat(x) for x in case['a']]
+        self.qb = [sx.rat(x) for x in case['b']]
+        self.bscale = case.get('bscale')
+        self.round = 0
+        self.modes = []
+        self.memo = {}
+        self.problems = []             # implementation-only oracle findings of the sweep axes: [kind, where, detail]
+        self.axes = {}
+        self.quiet = False              # True while an evaluation must not draw benefits
+        a, b = make_ab(case)
+        self.a_obj, self.b_obj = a, b
+        self.a_copy, self.b_copy = [float(x) for x in a], [float(x) for x in b]
+        frng = random.Random(case['seed'] ^ 0x5f5f)
+        self.frng = frng
+        if case.get('fscale'):
+            # boxes far from the origin / tiny boxes: f(x) = prod_k (x_k - a_k), values in [0, prod of the widths] (compared relative to that)
+            alpha = [Fraction(0) for _ in range(dim)]
+            beta = [-x for x in self.qa]
+            scale = 1.0
+            for x, y in zip(self.qa, self.qb):
+                scale *= float(y - x)
+            self.fscale = scale
+        else:
+            # f(x) = sum_k alpha_k x_k^2 + prod_k (beta_k + x_k): smooth, non-multilinear, dyadic coefficients
+            alpha = [Fraction(frng.choice([0, 1, 2, -1, 3]), 2) for _ in range(dim)]
+            beta = [Fraction(frng.choice([2, 3, 4, 7]), 2) for _ in range(dim)]
+            self.fscale = None
+        self.alpha, self.beta = alpha, beta
+        fa, fb = [float(x) for x in alpha], [float(x) for x in beta]
 
-        def output_length(self):
-            return 1
+        class TestFunction(Function):
+            def eval(self, coordinates):
+                s_, p_ = 0.0, 1.0
+                for k, xk in enumerate(coordinates):
+                    s_ += fa[k] * xk * xk
+                    p_ *= (fb[k] + xk)
+                return s_ + p_
 
-    state = dict(round=0, modes=[], memo={})
+            def output_length(self):
+                return 1
 
-    def containers():
-        return [sa.refinement.get_refinement_container_for_dim(d) for d in range(dim)]
+        run = self
 
-    def next_benefits():
-        conts = containers()
+        class Scripted(ErrorCalculator):
+            def __init__(self):
+                super().__init__()
+                self.table = None
+
+            def calc_error(self, refine_object, norm, volume_weights=None):
+                if run.direct or run.quiet:
+                    return 0.0 if run.direct else (self.table or {}).get((refine_object.this_dim, refine_object.start), 0.0)
+                if self.table is None:
+                    bens = run.next_benefits()
+                    self.table = {}
+                    for d, c in enumerate(run.containers()):
+                        for i, o in enumerate(c.get_objects()):
+                            self.table[(d, o.start)] = bens[d][i]
+                return self.table[(refine_object.this_dim, refine_object.start)]
+
+        self.f = TestFunction()
+        self.ec = Scripted()
+        grid = GlobalTrapezoidalGrid(a, b, boundary=case['boundary'], modified_basis=False)
+        op = Integration(self.f, grid=grid, dim=dim, reference_solution=None)
+        kw = dict(version=case['version'], operation=op, rebalancing=case['rebalancing'],
+                  rebalancing_safety_factor=case['safety'])
+        if case['margin'] is not None:
+            kw['margin'] = case['margin']
+        self.sa = SpatiallyAdaptiveSingleDimensions2(a, b, **kw)
+        self.out = dict(states=[], bens=[], selected=[], modes=self.modes, max_size=0, legs=[], problems=self.problems, axes=self.axes,
+                        fixed=self.fixed)
+        self.cur = self.out         # the leg that is being recorded
+
+    # -------------------------------------------------------------------------------------------
+    def axis(self, key, k=1):
+        self.axes[key] = self.axes.get(key, 0) + k
+
+    def containers(self):
+        return [self.sa.refinement.get_refinement_container_for_dim(d) for d in range(self.dim)]
+
+    def next_benefits(self):
+        conts = self.containers()
         sizes = [c.size() for c in conts]
-        if fixed is not None and state['round'] < len(fixed):
-            bens = [[float(Fraction(*x)) if isinstance(x, (list, tuple)) else float(x) for x in bd] for bd in fixed[state['round']]]
+        fixed = self.cur.get('fixed')
+        rnd = len(self.cur['bens'])
+        if fixed is not None and rnd < len(fixed):
+            bens = [[float(Fraction(*x)) if isinstance(x, (list, tuple)) else float(x) for x in bd] for bd in fixed[rnd]]
             mode = 'fixed'
-        elif deep:
-            trees = [[((sx.rat(o.start) - qa[d]) / (qb[d] - qa[d]), (sx.rat(o.end) - qa[d]) / (qb[d] - qa[d]),
+        elif self.deep:
+            trees = [[((sx.rat(o.start) - self.qa[d]) / (self.qb[d] - self.qa[d]), (sx.rat(o.end) - self.qa[d]) / (self.qb[d] - self.qa[d]),
                        int(o.levels[0]), int(o.levels[1]), int(o.coarsening_level)) for o in c.get_objects()]
                      for d, c in enumerate(conts)]
-            mode, bens = gen_benefits_deep(rng, trees, state['memo'], margin)
+            mode, bens = gen_benefits_deep(self.rng, trees, self.memo, self.margin)
+            if self.bscale:        # magnitudes: all benefits of the step times a power of two (the margin test stays exact)
+                k = self.rng.randrange(-60, 31)
+                bens = [[x * 2.0 ** k for x in bd] for bd in bens]
+                self.axis('d:benefit-scale-2^%s' % ('<=-20' if k <= -20 else ('>=10' if k >= 10 else 'mid')))
         else:
-            mode, bens = gen_benefits(rng, sizes, margin)
-        state['modes'].append(mode)
-        return [[(bens[d][i] if i < len(bens[d]) else 0.0) for i in range(sizes[d])] for d in range(dim)]
+            mode, bens = gen_benefits(self.rng, sizes, self.margin)
+        self.modes.append(mode)
+        return [[(bens[d][i] if i < len(bens[d]) else 0.0) for i in range(sizes[d])] for d in range(self.dim)]
 
-    class Scripted(ErrorCalculator):
-        def __init__(self):
-            super().__init__()
-            self.table = None
+    def perform(self, lmin, lmax, container=None):
+        res = self.sa.performSpatiallyAdaptiv(lmin, lmax, self.ec, tol=-1, refinement_container=container, max_evaluations=1,
+                                              print_output=False)
+        self.last_result = res
+        return res
 
-        def calc_error(self, refine_object, norm, volume_weights=None):
-            if direct:
-                return 0.0
-            if self.table is None:
-                bens = next_benefits()
-                self.table = {}
-                for d, c in enumerate(containers()):
-                    for i, o in enumerate(c.get_objects()):
-                        self.table[(d, o.start)] = bens[d][i]
-            return self.table[(refine_object.this_dim, refine_object.start)]
-
-    grid = GlobalTrapezoidalGrid(a, b, boundary=case['boundary'], modified_basis=False)
-    f = TestFunction()
-    op = Integration(f, grid=grid, dim=dim, reference_solution=None)
-    kw = dict(version=case['version'], operation=op, rebalancing=case['rebalancing'],
-              rebalancing_safety_factor=case['safety'])
-    if case['margin'] is not None:
-        kw['margin'] = case['margin']
-    sa = SpatiallyAdaptiveSingleDimensions2(a, b, **kw)
-    ec = Scripted()
-    if inst is not None and not direct:
-        direct = True            # the evaluation of the start state draws no benefits
-        sa.performSpatiallyAdaptiv(case['lmin'], case['lmax'], ec, tol=-1, max_evaluations=1, print_output=False)
-        direct = False
-    else:
-        sa.performSpatiallyAdaptiv(case['lmin'], case['lmax'], ec, tol=-1, max_evaluations=1, print_output=False)
-    out = dict(states=[], bens=[], selected=[], modes=state['modes'], max_size=0)
-    if inst is not None:
-        try:
-            for d, t in enumerate(inst['trees']):
-                c = sa.refinement.get_refinement_container_for_dim(d)
-                c.refinementObjects = [RefinementObjectSingleDimension(float(Fraction(*o[0])), float(Fraction(*o[1])), d, dim,
-                                                                       [int(o[2]), int(o[3])], grid=sa.grid, coarsening_level=0,
-                                                                       a=sa.a[d], b=sa.b[d]) for o in t]
-            rb = sa.rebalancing
-            sa.rebalancing = bool(inst['rebalance'])
+    def start(self):
+        case, sa = self.case, self.sa
+        from sparseSpACE.RefinementObject import RefinementObjectSingleDimension
+        if self.inst is not None and not self.direct:
+            self.quiet = True            # the evaluation of the start state draws no benefits
+            self.perform(case['lmin'], case['lmax'])
+            self.quiet = False
+        else:
+            self.perform(case['lmin'], case['lmax'])
+        if self.inst is not None:
             try:
-                sa.refinement_postprocessing()
-            finally:
-                sa.rebalancing = rb
-            if not direct:
-                sa.continue_adaptive_refinement(tol=-1, max_evaluations=1)
-        except Exception as e:
-            out['exc'] = [type(e).__name__, _where(e), str(e)[:300], 0]
-            out['states'] = [_snapshot_safe(sa, what)]
-            return out
-    states = [_snapshot(sa, what)]
-    out['states'] = states
-    bens_used, selected, max_size = out['bens'], out['selected'], max(len(t) for t in states[0]['trees'])
-    out['max_size'] = max_size
-    nsteps = len(fixed) if fixed is not None else case['steps']
-    for step in range(nsteps):
-        conts = containers()
-        if direct:
-            bens = next_benefits()
+                for d, t in enumerate(self.inst['trees']):
+                    c = sa.refinement.get_refinement_container_for_dim(d)
+                    c.refinementObjects = [RefinementObjectSingleDimension(float(Fraction(*o[0])), float(Fraction(*o[1])), d, self.dim,
+                                                                           [int(o[2]), int(o[3])], grid=sa.grid, coarsening_level=0,
+                                                                           a=sa.a[d], b=sa.b[d]) for o in t]
+                rb = sa.rebalancing
+                sa.rebalancing = bool(self.inst['rebalance'])
+                try:
+                    sa.refinement_postprocessing()
+                finally:
+                    sa.rebalancing = rb
+                if not self.direct:
+                    self.ec.table = None
+                    self.last_result = sa.continue_adaptive_refinement(tol=-1, max_evaluations=1)
+            except Exception as e:
+                _reraise_timeout(e)
+                self.cur['exc'] = [type(e).__name__, _where(e), str(e)[:300], 0]
+                self.cur['states'] = [_snapshot_safe(sa, self.what)]
+                return False
+        self.cur['states'] = [_snapshot(sa, self.what)]
+        self.out['max_size'] = max(self.out['max_size'], max(len(t) for t in self.cur['states'][0]['trees']))
+        return True
+
+    def step(self):
+        """one refinement step; False when the implementation raised"""
+        sa, dim, cur = self.sa, self.dim, self.cur
+        conts = self.containers()
+        if self.direct:
+            bens = self.next_benefits()
             for d, c in enumerate(conts):
                 for o, bv in zip(c.get_objects(), bens[d]):
                     o.benefit = bv
             sa.benefit_max = sa.refinement.get_max_benefit()      # what evaluate_operation does after the error estimation
         bens = [[sx.rat(o.benefit) for o in c.get_objects()] for c in conts]
-        bens_used.append(bens)
+        cur['bens'].append(bens)
         before = [[(o.start, o.end) for o in c.get_objects()] for c in conts]
+        step_no = len(cur['bens'])
         try:
             sa.refine()
             after = [set((o.start, o.end) for o in sa.refinement.get_refinement_container_for_dim(d).get_objects()) for d in range(dim)]
-            selected.append([[i for i, se in enumerate(before[d]) if se not in after[d]] for d in range(dim)])
-            ec.table = None
-            state['round'] += 1
-            if not direct:
-                sa.continue_adaptive_refinement(tol=-1, max_evaluations=1)
-            states.append(_snapshot(sa, what))
+            cur['selected'].append([[i for i, se in enumerate(before[d]) if se not in after[d]] for d in range(dim)])
+            self.ec.table = None
+            if not self.direct:
+                self.last_result = sa.continue_adaptive_refinement(tol=-1, max_evaluations=1)
+            if max(c.size() for c in self.containers()) > SIZE_STOP:
+                # far more intervals than any generated selection can produce: record the (small) state and stop the history here;
+                # the selection oracle of the parent reports the step
+                cur['states'].append(_snapshot(sa, 0))
+                cur['stopped'] = step_no
+                return False
+            cur['states'].append(_snapshot(sa, self.what))
         except Exception as e:
-            out['exc'] = [type(e).__name__, _where(e), str(e)[:300], step + 1]
-            if len(selected) < len(bens_used):
-                selected.append([[] for _ in range(dim)])
-            states.append(_snapshot_safe(sa, 0))
-            return out
-        max_size = max(max_size, max(len(t) for t in states[-1]['trees']))
-        out['max_size'] = max_size
-    if what >= 2:
+            _reraise_timeout(e)
+            cur['exc'] = [type(e).__name__, _where(e), str(e)[:300], step_no]
+            if len(cur['selected']) < len(cur['bens']):
+                cur['selected'].append([[] for _ in range(dim)])
+            cur['states'].append(_snapshot_safe(sa, 0))
+            return False
+        self.out['max_size'] = max(self.out['max_size'], max(len(t) for t in cur['states'][-1]['trees']))
+        return True
+
+    # ------------------------------------------------------------------------------------------- sweep axes (a) (b) (c) (e)
+    def _levelvec_arg(self, lv):
+        kind = self.orng.choice(['list', 'tuple', 'ndarray', 'own'])
+        self.axis('b:levelvec-as-' + kind)
+        if kind == 'list':
+            return [int(x) for x in lv]
+        if kind == 'tuple':
+            return tuple(int(x) for x in lv)
+        if kind == 'ndarray':
+            return self.np.array([int(x) for x in lv])
+        return lv
+
+    def _problem(self, kind, where, detail):
+        self.problems.append([kind, where, str(detail)[:300], len(self.out['legs']), len(self.cur['bens'])])
+
+    def _check_args(self, where, args_before):
+        """argument immutability: the bound objects and every argument object of the observer call are unchanged"""
+        if [float(x) for x in self.a_obj] != self.a_copy or [float(x) for x in self.b_obj] != self.b_copy:
+            self._problem('argument-mutated', where, 'domain bounds changed: %s %s' % (list(self.a_obj), list(self.b_obj)))
+        for name, obj, copy in args_before:
+            now = [tuple(float(v) for v in x) if hasattr(x, '__len__') else float(x) for x in obj]
+            if now != copy:
+                self._problem('argument-mutated', where, '%s changed: %s -> %s' % (name, copy[:4], now[:4]))
+
+    def _scribble(self, x):
+        """overwrite a returned object in place with the sentinel (lists, arrays, nested)"""
+        np = self.np
+        if isinstance(x, np.ndarray):
+            if x.flags.writeable and x.dtype.kind in 'fiu':
+                x[...] = SENTINEL
+        elif isinstance(x, list):
+            for i in range(len(x)):
+                if isinstance(x[i], (list, np.ndarray)):
+                    self._scribble(x[i])
+                else:
+                    x[i] = SENTINEL
+        elif isinstance(x, tuple):
+            for y in x:
+                self._scribble(y)
+
+    def observe(self, names, scribble):
+        """public observer calls on the live object between two steps: the state (incl. the stripes computed through the
+        caches) must be unchanged, arguments untouched, returned objects must not alias the internal state"""
+        sa, np = self.sa, self.np
+        what = max(self.what, 1) if self.dim <= 3 else self.what
+        before = _snapshot(sa, what)
+        before['benefits'] = [[o.benefit for o in c.get_objects()] for c in self.containers()]
+        def snap():
+            st = _snapshot(sa, what)
+            st['benefits'] = [[o.benefit for o in c.get_objects()] for c in self.containers()]
+            return st
+
+        for name in names:
+            self.axis('e:observer-' + name)
+            args, rets = [], []
+            try:
+                if name == 'stripes':
+                    for g in list(sa.scheme)[:6]:
+                        lv = self._levelvec_arg(g.levelvector)
+                        keep = [float(x) for x in lv]
+                        ret = sa.get_point_coord_for_each_dim(lv)
+                        args.append(('levelvec', lv, keep))
+                        rets.append(list(ret[:2]))
+                elif name == 'points':
+                    for g in list(sa.scheme)[:6]:
+                        lv = self._levelvec_arg(g.levelvector)
+                        keep = [float(x) for x in lv]
+                        ret = sa.get_points_component_grid(lv)
+                        args.append(('levelvec', lv, keep))
+                        if isinstance(ret, list):
+                            rets.append(('clear', ret))
+                elif name == 'call':
+                    pts = [tuple(self.case['a'][k] + (self.case['b'][k] - self.case['a'][k]) * self.orng.randrange(0, 9) / 8.0
+                                 for k in range(self.dim)) for _ in range(3)]
+                    if self.orng.random() < 0.5:
+                        pts = np.array(pts)
+                        self.axis('b:points-as-ndarray')
+                    keep = [tuple(float(v) for v in x) for x in pts]
+                    rets.append(sa(pts))
+                    args.append(('points', pts, keep))
+                elif name == 'num_points':
+                    sa.get_total_num_points()
+                    sa.get_total_num_points(distinct_function_evals=False)
+                elif name == 'check_scheme':
+                    sa.check_combi_scheme()
+                elif name == 'final_combi':
+                    rets.append(sa.evaluate_final_combi()[0])
+                elif name == 'points_weights':
+                    rets.append(list(sa.get_points_and_weights()))
+                elif name == 'num_each_dim':
+                    rets.append(sa.get_num_points_each_dim())
+            except Exception as e:
+                _reraise_timeout(e)
+                self._problem('observer-raises', name, '%s %s %s' % (type(e).__name__, _where(e), str(e)[:120]))
+            self._check_args(name, args)
+            after = snap()
+            if after != before:
+                self._problem('observer-changes-state', name, 'fields %s' % [k for k in before if before[k] != after.get(k)])
+                before = after
+            if scribble and rets:
+                for r_ in rets:
+                    if isinstance(r_, tuple) and len(r_) == 2 and r_[0] == 'clear':
+                        r_[1][:] = [SENTINEL] * len(r_[1])
+                    else:
+                        self._scribble(r_)
+                after = snap()
+                if after != before:
+                    self._problem('result-aliases-internal-state', name, 'fields %s' % [k for k in before if before[k] != after.get(k)])
+                    before = after
+        if scribble:
+            self.axis('c:returned-objects-overwritten')
+
+    def probe_returned_tuple(self):
+        """(c) the objects returned by performSpatiallyAdaptiv / continue_adaptive_refinement: overwrite lmax and the scheme list,
+        look at the state, put the original content back (so that the history goes on either way)"""
+        res = getattr(self, 'last_result', None)
+        if res is None:
+            return
+        sa = self.sa
+        self.axis('c:returned-tuple-probed')
+        before = _snapshot(sa, 0)
+        for idx, name in ((2, 'lmax'), (1, 'scheme')):
+            obj = res[idx]
+            if not isinstance(obj, list):
+                continue
+            keep = list(obj)
+            obj[:] = [SENTINEL] * len(obj) if name == 'lmax' else []
+            try:
+                broken = (list(sa.lmax) != before['lmax']) if name == 'lmax' else (len(sa.scheme) != len(before['scheme']))
+            finally:
+                obj[:] = keep
+            if broken:
+                self._problem('result-aliases-internal-state', 'returned-' + name,
+                              'overwriting the %s returned by performSpatiallyAdaptiv/continue_adaptive_refinement changes the strategy' % name)
+
+    # ------------------------------------------------------------------------------------------- (f) restart on the same object
+    def restart(self, leg):
+        """a further performSpatiallyAdaptiv on the SAME object: mode 'fresh' = other (lmin, lmax), the refinement is rebuilt;
+        mode 'container' = the refinement of the previous leg is handed back (lmin/lmax arguments are then ignored)"""
+        rec = dict(mode=leg['mode'], lmin=leg['lmin'], lmax=leg['lmax'], states=[], bens=[], selected=[], fixed=leg.get('bens'))
+        self.out['legs'].append(rec)
+        self.cur = rec
+        self.memo = {}
+        self.axis('f:restart-' + leg['mode'])
+        try:
+            self.ec.table = None
+            self.perform(leg['lmin'], leg['lmax'], container=(self.sa.refinement if leg['mode'] == 'container' else None))
+            rec['states'] = [_snapshot(self.sa, self.what)]
+        except Exception as e:
+            _reraise_timeout(e)
+            rec['exc'] = [type(e).__name__, _where(e), str(e)[:300], 0]
+            rec['states'] = [_snapshot_safe(self.sa, 0)]
+            return False
+        if leg['mode'] == 'fresh':
+            # implementation-only differential oracle: a FRESH object with the same options in the same (initial) state
+            other = _Run(dict(self.case, lmin=leg['lmin'], lmax=leg['lmax'], install=None, drive='direct', what=self.what,
+                              observe=False, legs=None, companion=None))
+            other.start()
+            fresh = other.out['states'][0]
+            mine = rec['states'][0]
+            for fld in ('trees', 'lmax', 'scheme', 'stripes', 'comp_stripes', 'points'):
+                if fld in mine and mine.get(fld) != fresh.get(fld):
+                    rec['fresh_diff'] = fld
+                    break
+        return True
+
+    def finish_interp(self):
+        out, what, sa, f, case, dim, frng = self.out, self.what, self.sa, self.f, self.case, self.dim, self.frng
+        last = self.cur['states'][-1]
+        if what < 2 or 'points' not in last:
+            return
+        scale = self.fscale
         # interpolation oracle data: combined interpolant at all points of the combined grid vs the function
-        pts = sorted(set(tuple(float(x) for x in p) for comp in states[-1]['points'] for p in comp[1]))
+        pts = sorted(set(tuple(float(x) for x in p) for comp in last['points'] for p in comp[1]))
         if pts and len(pts) <= 4000:
             vals = sa(pts)
             worst = 0.0
             wp = None
             for p, v in zip(pts, vals):
                 fv = f.eval(p)
-                e = abs(float(v[0]) - fv) / (1.0 + abs(fv))
+                e = abs(float(v[0]) - fv) / (scale if scale else (1.0 + abs(fv)))
                 if e > worst:
                     worst, wp = e, p
             out['interp'] = [worst, wp, len(pts)]
@@ -552,9 +864,109 @@ def impl_run(case):
                  for k in range(dim)] for _ in range(8)]
         qpts += [[Fraction(x) for x in p] for p in frng.sample(pts, min(4, len(pts)))] if pts else []
         vals = sa([tuple(float(x) for x in p) for p in qpts])
-        out['poly'] = [alpha, beta]
+        out['poly'] = [self.alpha, self.beta]
         out['interp_points'] = qpts
         out['interp_values'] = [float(v[0]) for v in vals]
+        out['interp_scale'] = scale
+
+
+def impl_run(case):
+    """One scripted history on the implementation. The benefits are drawn from the case seed against the live
+    state (sizes, levels, coarsening), read back from the objects' `benefit` attribute and returned so that the model
+    replays them.
+      case['drive'] = 'full' (default): scripted ErrorCalculator, every step = refine() + continue_adaptive_refinement
+                      'direct': the benefit attributes are set on the objects, benefit_max as evaluate_operation does, refine()
+      case['install'] = dict(rebalance, trees): the run starts from an installed state (see gen_case_install)
+      case['observe'] / ['scribble']: public observer calls on the live object between the steps (axes a, b, c, e)
+      case['legs']: further performSpatiallyAdaptiv calls on the SAME object after the first history (axis f)
+      case['companion']: a second strategy object with other options, alive in the same process, stepped alternately (axis g)
+      case['ab']: kind of object that carries the domain bounds (axis b); FAR_BOXES / 'bscale' (axis d); dim = 1 (axis i)
+    An exception inside a step is returned with the history up to that step (out['exc'])."""
+    run = _Run(case)
+    comp = None
+    if case.get('companion'):
+        comp = _Run(case['companion'])
+        run.axis('g:companion-object-interleaved')
+        try:
+            if not comp.start():
+                comp = None
+        except Exception as e:
+            _reraise_timeout(e)
+            comp = None
+    out = run.out
+    if case.get('ab', 'f64') != 'f64':
+        run.axis('b:bounds-as-' + case['ab'])
+    if case.get('fscale'):
+        run.axis('d:box-far-or-tiny')
+    if case['dim'] == 1:
+        run.axis('i:dim=1')
+    if not run.start():
+        return out
+    observe = bool(case.get('observe'))
+    scribble = bool(case.get('scribble'))
+    if observe:
+        run.probe_returned_tuple()
+    fixed = case.get('bens')
+    nsteps = len(fixed) if fixed is not None else case['steps']
+    ok = True
+    for k in range(nsteps):
+        if observe and run.orng.random() < 0.6:
+            run.observe(run.orng.sample(OBSERVERS, run.orng.randrange(1, 4)), scribble)
+        if comp is not None and k < comp.case['steps']:
+            try:
+                comp.step()
+            except Exception as e:
+                _reraise_timeout(e)
+                comp = None
+            # (g) the other object moved, this one did not: its observable state must be what was recorded after its last step
+            try:
+                now = _snapshot(run.sa, run.what)
+            except Exception as e:
+                _reraise_timeout(e)
+                now = dict(error=str(e)[:100])
+            if now != run.cur['states'][-1]:
+                run._problem('depends-on-other-instance', 'companion-step',
+                             'fields %s changed while only the other object was stepped' % [f for f in now if now[f] != run.cur['states'][-1].get(f)])
+        if not run.step():
+            ok = False
+            break
+        if observe and not run.direct and run.orng.random() < 0.3:
+            run.probe_returned_tuple()
+    if ok and run.out['states'] and max(len(t) for t in run.out['states'][-1]['trees']) >= 200:
+        run.axis('h:intervals>=200')
+    if ok:
+        for leg in (case.get('legs') or []):
+            if not run.restart(leg):
+                break
+            lfixed = leg.get('bens')
+            n = len(lfixed) if lfixed is not None else leg['steps']
+            good = True
+            for k in range(n):
+                if observe and run.orng.random() < 0.5:
+                    run.observe(run.orng.sample(OBSERVERS, run.orng.randrange(1, 3)), scribble)
+                if not run.step():
+                    good = False
+                    break
+            if not good:
+                break
+        if not case.get('legs'):
+            run.finish_interp()
+    for leg in out['legs']:
+        leg.pop('fixed', None)
+    out.pop('fixed', None)
+    if case.get('companion') and ok and 'exc' not in out and not case.get('_solo'):
+        # (g) implementation-only differential oracle: the same history WITHOUT the other object alive must give the same states
+        solo = impl_run(dict(case, companion=None, _solo=True, bens=[[[[b.numerator, b.denominator] for b in bd] for bd in st]
+                                                                      for st in out['bens']],
+                             legs=[dict(mode=l['mode'], lmin=l['lmin'], lmax=l['lmax'], steps=len(l['bens']),
+                                        bens=[[[[b.numerator, b.denominator] for b in bd] for bd in st] for st in l['bens']])
+                                   for l in out['legs']] or None))
+        mine = [out['states']] + [l['states'] for l in out['legs']]
+        other = [solo['states']] + [l['states'] for l in solo['legs']]
+        if mine != other:
+            where = next((('leg %d' % j) for j, (x, y) in enumerate(zip(mine, other)) if x != y), 'legs')
+            out['problems'].append(['depends-on-other-instance', 'companion', 'states differ from the run without the second object (%s)' % where,
+                                    0, len(out['bens'])])
     return out
 
 
@@ -572,7 +984,9 @@ _RB_CACHE = {}
 def rebalance_exceptions(sf, max_m):
     """Triples (pos, pos1, m) on which the binary64 test of rebalance_interval differs from exact arithmetic
     (the safety factor is taken at its exact binary64 value).  Exact test in integers:
-    |pos/m - 1/2| > |pos1/m - 1/2| + N/D  <=>  (|2 pos - m| - |2 pos1 - m|) * D > 2 m N."""
+    |pos/m - 1/2| > |pos1/m - 1/2| + N/D  <=>  |2 pos - m| - |2 pos1 - m| > 2 m N / D  <=>  ... >= floor(2 m N / D) + 1.
+    The binary64 side is evaluated with numpy float64 (same IEEE operations as the Python expression)."""
+    import numpy as np
     max_m = 32 * ((max_m + 31) // 32)
     key = (sf, max_m)
     if key in _RB_CACHE:
@@ -581,16 +995,17 @@ def rebalance_exceptions(sf, max_m):
     N, D = sfq.numerator, sfq.denominator
     out = []
     for m in range(1, max_m + 1):
-        fls = [abs(pos / m - 0.5) for pos in range(0, m + 2)]
-        exs = [abs(2 * pos - m) for pos in range(0, m + 2)]
-        rhs = 2 * m * N
-        for pos in range(0, m + 2):
-            fl, ex = fls[pos], exs[pos]
-            for pos1 in range(0, m + 2):
-                if pos1 == pos:
-                    continue
-                if (fl > fls[pos1] + sf) != ((ex - exs[pos1]) * D > rhs):
-                    out.append([pos, pos1, m])
+        pos = np.arange(0, m + 2)
+        fl = np.abs(pos / m - 0.5)
+        ex = np.abs(2 * pos - m).astype(np.int64)
+        thr = (2 * m * N) // D + 1
+        dfl = fl[:, None] > fl[None, :] + sf
+        dex = (ex[:, None] - ex[None, :]) >= thr
+        bad = dfl != dex
+        np.fill_diagonal(bad, False)
+        if bad.any():
+            for p_, p1 in zip(*np.nonzero(bad)):
+                out.append([int(p_), int(p1), m])
     _RB_CACHE[key] = out
     return out
 
@@ -624,6 +1039,25 @@ def model_case(case, impl_result):
         hist[11] = rebalance_exceptions(case['safety'], max_m)
     trees = [[[Fraction(*o[0]), Fraction(*o[1]), o[2], o[3], 0] for o in t] for t in inst['trees']]
     return (5, [hist, bool(inst['rebalance']), trees])
+
+
+def leg_model_cases(case, r):
+    """model inputs for the further legs of a history on one object (axis f).  A 'fresh' leg is an independent run with the leg's
+    (lmin, lmax); a 'container' leg continues the run it was handed (its lmin/lmax arguments are ignored by the library).
+    Returns [(leg index, model case, offset of the leg's first state in the model's state list)]."""
+    res = []
+    base = dict(case)
+    bens = list(r['bens'])
+    for j, leg in enumerate(r.get('legs') or []):
+        if leg['mode'] == 'fresh':
+            base = dict(case, lmin=leg['lmin'], lmax=leg['lmax'], install=None)
+            bens = list(leg['bens'])
+            off = 0
+        else:
+            off = len(bens)
+            bens = bens + list(leg['bens'])
+        res.append((j, model_case(base, dict(bens=bens, max_size=r.get('max_size', 8))), off))
+    return res
 
 
 def model_interp_case(case, impl_result):
